@@ -22,6 +22,8 @@ THEOREMS = [
     "Mesa.Collect.C12_model_frame_every_shape",
     "Mesa.Collect.C12_agenttype_frame_is_records",
     "Mesa.Collect.C12_deepcopy_makes_stored_values_immune",
+    "Mesa.Collect.C12_shallow_copy_not_immune",
+    "Mesa.Collect.C12_stored_reference_not_immune",
     "Mesa.Collect.C12_reorder_only_permutes_agents",
     "Mesa.Collect.C12_shuffle_any_order",
     "Mesa.Collect.C12_creation_order_without_reorder",
@@ -32,7 +34,7 @@ THEOREMS = [
 COUNTS = {"quick": 2500, "thorough": 200000}
 TRUSTED = [
     "pandas: DataFrame(dict of equal-length lists) and DataFrame.from_records(list of tuples, columns, index) only re-index what they are given (frames are compared as index tuples / column names / values on every run)",
-    "copy.deepcopy detaches a stored model-level value from the live object (exercised: list attributes are mutated in place after every collect)",
+    "copy.deepcopy gives every object reachable from a model-level value a fresh identity and keeps the shape (modelled in Model/CollectHeap.lean as a duplicate of the heap, immunity proved to any depth; exercised: list attributes are mutated in place after collects, also as the inner list of a nested value - a list in a 1-tuple, a list of lists - a function reporter returned; the driver's model keeps immutable values)",
     "reporters are functions of the snapshot (model/agent attributes, steps, registry) that return a value or raise; reporters with side effects (the trial call of the validation runs a plain function twice at the first collect) or reading global state are not modelled",
     "Model.agents / agents_by_type keep registration order (C03) until reordered; model.agents is reordered in place only through AgentSet.shuffle(inplace=True) (the random source replaced by one drawing a given permutation of the positions - any one -, the reversal or the rotation by one) and AgentSet.sort(key, ascending, inplace=True) (by unique_id, by an int-valued key); agents_by_type[T] is never reordered, select(inplace=True) on model.agents is not generated",
     "names (reporters, attributes, tables, columns, classes) are small naturals in dictionary order; key collisions between dictionaries are not generated",
@@ -47,7 +49,7 @@ RULE = ("random histories over a random class hierarchy (1-4 classes, random par
         "scenarios some function reporters read their attribute directly and raise AttributeError while it is missing (first collect: RuntimeError from the trial "
         "call of a plain function; later: the collect ends in the model / agent / agent-type phase and leaves a partial collect); "
         "6-30 ops from {create, remove (incl. twice), step, model attribute set / in-place list append / delete, agent attribute set / delete, "
-        "collect (0-n per step, also before any agent exists), add_table_row (complete, partial, ignore_missing, unknown table)}; in 30% of the scenarios "
+        "collect (0-n per step, also before any agent exists; every second function reporter returns its list as the inner object of a nested value - (list,) for an even, [list] for an odd attribute number - so the in-place append is an append to an inner list after the collect, oracle clause: what the collector holds reads the same before and after), add_table_row (complete, partial, ignore_missing, unknown table)}; in 30% of the scenarios "
         "model.agents is reordered in place between collects (shuffle(inplace=True) drawing a random permutation of the positions - 1 in 12 deliberately not a permutation: no draw -, a reversal or a rotation, sort(inplace=True) by unique_id or an "
         "int key, ascending / descending); with observations "
         "(model_vars, the four DataFrames) interleaved and at the end; non-trivial = at least one collect stored something and a frame with >= 1 row "
@@ -98,6 +100,8 @@ def tags(sc, obs):
         yield "branch:collect-without-agents"
     if any(isinstance(v, list) for c in cs for v in c["m"]):
         yield "branch:mutable-model-value-collected"
+    if trace.get("inner_appends"):
+        yield "branch:inner-append-while-nested-value-stored"
     spec = trace.get("spec")
     if spec and any(not CC.type_clause_applies(spec, cs, T) for T, _ in spec.treps if T < len(spec.parents)):
         yield "branch:type-key-outside-quantifier"
